@@ -195,3 +195,292 @@ Proof.
   intros Hn Hs. unfold merge1. rewrite merge1_lowers by exact Hn.
   rewrite (merge_fold_concat (lowers parts) []); [reflexivity|exact Hs].
 Qed.
+
+(* ------------------------------------------------------------ splitUniform *)
+Lemma zinsert_In z l x : In x (zinsert z l) <-> x = z \/ In x l.
+Proof.
+  induction l as [|y l IH]; cbn [zinsert In]; [intuition congruence|].
+  destruct (Z.ltb_spec z y); [cbn [In]; intuition congruence|]. destruct (Z.eqb_spec z y); cbn [In]; [subst; intuition congruence|]. rewrite IH. intuition congruence.
+Qed.
+
+Lemma zinsert_sorted z l : StronglySorted Z.lt l -> StronglySorted Z.lt (zinsert z l).
+Proof.
+  induction 1 as [|y l Hs IH Hf]; cbn [zinsert]; [repeat constructor|].
+  destruct (Z.ltb_spec z y).
+  - constructor; [constructor; assumption|]. constructor; [assumption|].
+    rewrite Forall_forall in *. intros x Hx. specialize (Hf x Hx). lia.
+  - destruct (Z.eqb_spec z y); [constructor; assumption|]. constructor; [exact IH|].
+    rewrite Forall_forall in *. intros x Hx. apply zinsert_In in Hx. destruct Hx as [->|Hx]; [lia|apply Hf; exact Hx].
+Qed.
+
+Lemma zrange_In k n : forall lo, In k (zrange lo n) <-> lo <= k < lo + Z.of_nat n.
+Proof.
+  induction n as [|n IH]; intros lo; cbn [zrange In]; [lia|]. rewrite IH. lia.
+Qed.
+
+(* the upper coordinates splitUniform creates, as a function of the (integer) coordinates *)
+Definition su_starts (step pre post : Z) (cs : list Z) : list Z :=
+  fold_left (fun acc c =>
+               let kmin := (c - step - post) / step + 1 in
+               let kmax := (c + pre) / step in
+               fold_left (fun acc k => if 0 <=? k then zinsert (step * k) acc else acc)
+                         (zrange kmin (Z.to_nat (kmax - kmin + 1))) acc) cs [].
+
+Lemma su_inner step ks : forall acc,
+  let r := fold_left (fun acc k => if 0 <=? k then zinsert (step * k) acc else acc) ks acc in
+  (StronglySorted Z.lt acc -> StronglySorted Z.lt r) /\
+  (forall x, In x r <-> In x acc \/ exists k, In k ks /\ 0 <= k /\ x = step * k).
+Proof.
+  induction ks as [|k ks IH]; intros acc; cbn [fold_left].
+  - split; [tauto|]. intros x. split; [tauto|]. intros [H|[k [[] _]]]. exact H.
+  - specialize (IH (if 0 <=? k then zinsert (step * k) acc else acc)). cbn zeta in IH. destruct IH as [IH1 IH2]. split.
+    + intros H. apply IH1. destruct (0 <=? k); [apply zinsert_sorted|]; exact H.
+    + intros x. rewrite IH2. destruct (Z.leb_spec 0 k).
+      * rewrite zinsert_In. split.
+        -- intros [[->|H1]|[k' [H1 H2]]]; [right; exists k; cbn; tauto|tauto|right; exists k'; cbn; tauto].
+        -- intros [H1|[k' [[<-|H1] [H2 H3]]]]; [tauto|tauto|right; exists k'; tauto].
+      * split.
+        -- intros [H1|[k' [H1 H2]]]; [tauto|right; exists k'; cbn; tauto].
+        -- intros [H1|[k' [[<-|H1] [H2 H3]]]]; [tauto|lia|right; exists k'; tauto].
+Qed.
+
+Lemma su_range step pre post c k : 0 < step ->
+  (c - step - post) / step + 1 <= k < (c - step - post) / step + 1 + Z.of_nat (Z.to_nat ((c + pre) / step - ((c - step - post) / step + 1) + 1))
+  <-> step * k - pre <= c < step * k + step + post.
+Proof. intros Hs. split; intros H; nia. Qed.
+
+Lemma su_outer step pre post cs : 0 < step -> forall acc,
+  let r := fold_left (fun acc c =>
+               let kmin := (c - step - post) / step + 1 in
+               let kmax := (c + pre) / step in
+               fold_left (fun acc k => if 0 <=? k then zinsert (step * k) acc else acc)
+                         (zrange kmin (Z.to_nat (kmax - kmin + 1))) acc) cs acc in
+  (StronglySorted Z.lt acc -> StronglySorted Z.lt r) /\
+  (forall x, In x r <-> In x acc \/ exists c k, In c cs /\ 0 <= k /\ x = step * k /\ x - pre <= c < x + step + post).
+Proof.
+  intros Hs. induction cs as [|c cs IH]; intros acc; cbn [fold_left].
+  - split; [tauto|]. intros x. split; [tauto|]. intros [H|[c [k [[] _]]]]. exact H.
+  - cbn zeta. match goal with |- context [fold_left _ cs ?a] => specialize (IH a); pose proof (su_inner step (zrange ((c - step - post) / step + 1) (Z.to_nat ((c + pre) / step - ((c - step - post) / step + 1) + 1))) acc) as HI end.
+    cbn zeta in IH, HI. destruct IH as [IH1 IH2]. destruct HI as [HI1 HI2]. split; [tauto|].
+    intros x. rewrite IH2, HI2. split.
+    + intros [[H|[k [H1 [H2 H3]]]]|[c' [k [H1 H2]]]]; [tauto| |right; exists c', k; cbn; tauto].
+      right. exists c, k. apply zrange_In in H1. apply su_range in H1; [|exact Hs]. subst x. cbn. split; [tauto|]. split; [lia|]. split; [reflexivity|lia].
+    + intros [H|[c' [k [[<-|H1] [H2 [H3 H4]]]]]]; [tauto| |right; exists c', k; tauto].
+      left. right. exists k. split; [|tauto]. apply zrange_In. apply su_range; [exact Hs|]. subst x. lia.
+Qed.
+
+Lemma su_starts_spec step pre post cs : 0 < step ->
+  StronglySorted Z.lt (su_starts step pre post cs) /\
+  (forall x, In x (su_starts step pre post cs) <->
+             exists c k, In c cs /\ 0 <= k /\ x = step * k /\ x - pre <= c < x + step + post).
+Proof.
+  intros Hs. destruct (su_outer step pre post cs Hs []) as [H1 H2]. split; [apply H1; constructor|].
+  intros x. unfold su_starts. rewrite H2. cbn [In]. tauto.
+Qed.
+
+Lemma coords_int (l : list (value * trie)) : Forall int_key l ->
+  all_some (map (fun ct => coordZ (fst ct)) l) = Some (map kz l).
+Proof.
+  induction 1 as [|ct l Hk Hf IH]; cbn [map all_some]; [reflexivity|].
+  rewrite IH. destruct ct as [c x]. destruct Hk as [z Hz]. cbn [fst] in Hz. subst c. reflexivity.
+Qed.
+
+(* partition p of splitUniform(step, pre, post) *)
+Definition su_sel (step pre post p : Z) (l : list (value * trie)) : list (value * trie) :=
+  filter (fun ct => (p - pre <=? kz ct) && (kz ct <? p + step + post)) l.
+
+Lemma split_uniform_eq step pre post l : 0 < step -> Forall int_key l ->
+  split_uniform step pre post (TNode l) =
+  Some (TNode (map (fun p => (VInt p, TNode (su_sel step pre post p l))) (su_starts step pre post (map kz l)))).
+Proof.
+  intros Hs Hk. unfold split_uniform. destruct (Z.leb_spec step 0); [lia|].
+  rewrite coords_int by exact Hk. fold (su_starts step pre post (map kz l)).
+  do 2 f_equal. apply map_ext. intros p. do 2 f_equal. unfold su_sel. apply filter_ext_in.
+  intros ct Hin. rewrite Forall_forall in Hk. destruct ct as [c x]. destruct (Hk _ Hin) as [z Hz]. cbn [fst] in Hz. subst c. reflexivity.
+Qed.
+
+(* ---- a generic partition lemma: a list sorted by a class function w, cut into its classes ---- *)
+Lemma split_class {A} (w : A -> Z) p (l : list A) :
+  StronglySorted (fun a b => w a <= w b) l -> (forall a, In a l -> p <= w a) ->
+  l = filter (fun a => w a =? p) l ++ filter (fun a => negb (w a =? p)) l.
+Proof.
+  induction 1 as [|x l Hs IH Hf]; intros Hp; [reflexivity|]. cbn [filter].
+  destruct (Z.eqb_spec (w x) p) as [E|E]; cbn [negb app].
+  - f_equal. apply IH. intros a Ha. apply Hp. right. exact Ha.
+  - assert (Hx : p < w x) by (specialize (Hp x (or_introl eq_refl)); lia).
+    rewrite Forall_forall in Hf.
+    assert (E1 : filter (fun a => w a =? p) l = []).
+    { clear IH. induction l as [|y l IHl]; [reflexivity|]. cbn [filter].
+      assert (w x <= w y) by (apply Hf; left; reflexivity). destruct (Z.eqb_spec (w y) p); [lia|].
+      apply IHl; [inversion Hs; assumption| |]; intros a Ha; [apply Hf|apply Hp]; cbn [In] in *; tauto. }
+    assert (E2 : filter (fun a => negb (w a =? p)) l = l).
+    { clear IH E1. induction l as [|y l IHl]; [reflexivity|]. cbn [filter].
+      assert (w x <= w y) by (apply Hf; left; reflexivity). destruct (Z.eqb_spec (w y) p); [lia|]. cbn [negb]. f_equal.
+      apply IHl; [inversion Hs; assumption| |]; intros a Ha; [apply Hf|apply Hp]; cbn [In] in *; tauto. }
+    rewrite E1, E2. reflexivity.
+Qed.
+
+Lemma filter_filter_eq {A} (f g : A -> bool) l : (forall a, In a l -> g a = true -> f a = true) ->
+  filter g (filter f l) = filter g l.
+Proof.
+  induction l as [|x l IH]; intros H; [reflexivity|]. cbn [filter].
+  destruct (f x) eqn:Ef; cbn [filter].
+  - destruct (g x); [f_equal|]; apply IH; intros a Ha; apply H; right; exact Ha.
+  - destruct (g x) eqn:Eg; [rewrite (H x (or_introl eq_refl) Eg) in Ef; discriminate|].
+    apply IH. intros a Ha. apply H. right. exact Ha.
+Qed.
+
+Lemma classes_concat {A} (w : A -> Z) (starts : list Z) : StronglySorted Z.lt starts -> forall (l : list A),
+  StronglySorted (fun a b => w a <= w b) l -> (forall a, In a l -> In (w a) starts) ->
+  concat (map (fun p => filter (fun a => w a =? p) l) starts) = l.
+Proof.
+  induction 1 as [|p ps Hs IH Hf]; intros l Hl Hin; cbn [map concat].
+  - destruct l as [|a l]; [reflexivity|]. destruct (Hin a (or_introl eq_refl)).
+  - rewrite Forall_forall in Hf.
+    assert (Hp : forall a, In a l -> p <= w a).
+    { intros a Ha. destruct (Hin a Ha) as [<-|H]; [lia|]. specialize (Hf _ H). lia. }
+    etransitivity; [|symmetry; exact (split_class w p l Hl Hp)]. f_equal.
+    rewrite <- (IH (filter (fun a => negb (w a =? p)) l)).
+    + f_equal. apply map_ext_in. intros q Hq. symmetry. apply filter_filter_eq.
+      intros a _ Ha. specialize (Hf q Hq). destruct (Z.eqb_spec (w a) q); [|discriminate]. destruct (Z.eqb_spec (w a) p); [lia|reflexivity].
+    + apply SS_filter. exact Hl.
+    + intros a Ha. apply filter_In in Ha. destruct Ha as [Ha Hne]. destruct (Hin a Ha) as [E|H]; [|exact H].
+      rewrite <- E, Z.eqb_refl in Hne. discriminate.
+Qed.
+
+(* (a) splitUniform(step) without halos cuts a sorted non-negative integer fiber into consecutive pieces *)
+Theorem split_uniform_partition step l : 0 < step -> int_sorted l -> nonneg_keys l ->
+  exists parts, split_uniform step 0 0 (TNode l) = Some (TNode parts) /\
+    int_sorted parts /\
+    Forall (fun pt => exists k, 0 <= k /\ pt = (VInt (step * k), TNode (su_sel step 0 0 (step * k) l)) /\
+                                su_sel step 0 0 (step * k) l <> []) parts /\
+    (forall ct, In ct l -> In (VInt (upper step (kz ct)), TNode (su_sel step 0 0 (upper step (kz ct)) l)) parts) /\
+    concat (lowers parts) = l.
+Proof.
+  intros Hs [Hk Hsort] Hnn. eexists. split; [apply split_uniform_eq; assumption|].
+  destruct (su_starts_spec step 0 0 (map kz l) Hs) as [Hss Hin]. set (starts := su_starts step 0 0 (map kz l)) in *.
+  assert (HinU : forall ct, In ct l -> In (upper step (kz ct)) starts).
+  { intros ct Hct. apply Hin. exists (kz ct), (kz ct / step). unfold nonneg_keys in Hnn. rewrite Forall_forall in Hnn. specialize (Hnn _ Hct).
+    split; [apply in_map; exact Hct|]. unfold upper. split; [apply Z.div_pos; lia|]. split; [reflexivity|]. nia. }
+  split; [|split; [|split]].
+  - split.
+    + rewrite Forall_forall. intros pt Hpt. apply in_map_iff in Hpt. destruct Hpt as [p [<- _]]. exists p. reflexivity.
+    + clear Hin HinU. induction Hss as [|p ps Hs' IH Hf]; cbn [map]; constructor; [exact IH|].
+      rewrite Forall_forall in *. intros pt Hpt. apply in_map_iff in Hpt. destruct Hpt as [q [<- Hq]]. cbn. apply Hf. exact Hq.
+  - rewrite Forall_forall. intros pt Hpt. apply in_map_iff in Hpt. destruct Hpt as [p [<- Hp]].
+    apply Hin in Hp. destruct Hp as [c [k [Hc [Hk0 [-> Hr]]]]]. exists k. split; [exact Hk0|]. split; [reflexivity|].
+    apply in_map_iff in Hc. destruct Hc as [ct [<- Hct]]. intros E.
+    assert (Hx : In ct (su_sel step 0 0 (step * k) l)) by (apply filter_In; split; [exact Hct|lia]).
+    rewrite E in Hx. destruct Hx.
+  - intros ct Hct. apply in_map_iff. exists (upper step (kz ct)). split; [reflexivity|apply HinU; exact Hct].
+  - unfold lowers. rewrite map_map. cbn [snd tchildren].
+    etransitivity; [|apply (classes_concat (fun ct => upper step (kz ct)) starts Hss l)].
+    + f_equal. apply map_ext_in. intros p Hp. apply Hin in Hp. destruct Hp as [_ [k [_ [_ [-> _]]]]].
+      apply filter_ext. intros ct. pose proof (upper_covers step (kz ct) Hs) as Hc.
+      destruct (Z.eqb_spec (upper step (kz ct)) (step * k)) as [E|E].
+      * rewrite E in Hc. destruct (Z.leb_spec (step * k - 0) (kz ct)); [|lia]. destruct (Z.ltb_spec (kz ct) (step * k + step + 0)); [reflexivity|lia].
+      * destruct (Z.leb_spec (step * k - 0) (kz ct)); [|reflexivity]. destruct (Z.ltb_spec (kz ct) (step * k + step + 0)); [|reflexivity].
+        exfalso. apply E. symmetry. apply upper_unique; [exact Hs|exists k; reflexivity|lia].
+    + eapply SS_impl; [|exact Hsort]. cbn beta. intros a b Hab. apply upper_mono; lia.
+    + exact HinU.
+Qed.
+
+Lemma parts_all_nodes parts : Forall (fun pt : value * trie => exists c l', pt = (c, TNode l')) parts -> all_nodes parts.
+Proof. apply Forall_impl. intros pt [c [l' ->]]. exists l'. reflexivity. Qed.
+
+(* (b) split then merge is the identity *)
+Theorem split_uniform_merge1 step l : 0 < step -> int_sorted l -> nonneg_keys l ->
+  exists t', split_uniform step 0 0 (TNode l) = Some t' /\ merge1 t' = Some (TNode l).
+Proof.
+  intros Hs Hl Hnn. destruct (split_uniform_partition step l Hs Hl Hnn) as [parts [E [_ [Hp [_ Hc]]]]].
+  exists (TNode parts). split; [exact E|]. rewrite merge1_concat; [rewrite Hc; reflexivity| |rewrite Hc; exact Hl].
+  apply parts_all_nodes. revert Hp. apply Forall_impl. intros pt [k [_ [-> _]]]. eexists. eexists. reflexivity.
+Qed.
+
+Lemma int_sorted_map_starts {A} (f : Z -> A) starts : StronglySorted Z.lt starts ->
+  int_sorted (map (fun p => (VInt p, f p)) starts).
+Proof.
+  intros Hss. split.
+  - rewrite Forall_forall. intros pt Hpt. apply in_map_iff in Hpt. destruct Hpt as [p [<- _]]. exists p. reflexivity.
+  - induction Hss as [|p ps Hs' IH Hf]; cbn [map]; constructor; [exact IH|].
+    rewrite Forall_forall in *. intros pt Hpt. apply in_map_iff in Hpt. destruct Hpt as [q [<- Hq]]. cbn. apply Hf. exact Hq.
+Qed.
+
+(* (c) with halos: which partitions exist, and what each one holds (elements may occur in several) *)
+Theorem split_uniform_halo step pre post l : 0 < step -> Forall int_key l ->
+  exists parts, split_uniform step pre post (TNode l) = Some (TNode parts) /\
+    int_sorted parts /\
+    (forall pt, In pt parts <->
+       exists k ct, 0 <= k /\ In ct l /\ step * k - pre <= kz ct < step * k + step + post /\
+                    pt = (VInt (step * k), TNode (su_sel step pre post (step * k) l))) /\
+    (forall p ct, In ct (su_sel step pre post p l) <-> In ct l /\ p - pre <= kz ct < p + step + post).
+Proof.
+  intros Hs Hk. eexists. split; [apply split_uniform_eq; assumption|].
+  destruct (su_starts_spec step pre post (map kz l) Hs) as [Hss Hin]. split; [apply int_sorted_map_starts; exact Hss|]. split.
+  - intros pt. rewrite in_map_iff. split.
+    + intros [p [<- Hp]]. apply Hin in Hp. destruct Hp as [c [k [Hc [Hk0 [-> Hr]]]]].
+      apply in_map_iff in Hc. destruct Hc as [ct [<- Hct]]. exists k, ct. tauto.
+    + intros [k [ct [Hk0 [Hct [Hr ->]]]]]. exists (step * k). split; [reflexivity|]. apply Hin.
+      exists (kz ct), k. split; [apply in_map; exact Hct|]. tauto.
+  - intros p ct. unfold su_sel. rewrite filter_In. split; intros [H1 H2]; (split; [exact H1|lia]).
+Qed.
+
+(* with non-negative halos the home partition step*(c/step) of every element c >= 0 exists and holds it *)
+Corollary split_uniform_halo_home step pre post l ct : 0 < step -> 0 <= pre -> 0 <= post -> Forall int_key l ->
+  In ct l -> 0 <= kz ct ->
+  exists parts, split_uniform step pre post (TNode l) = Some (TNode parts) /\
+    In (VInt (upper step (kz ct)), TNode (su_sel step pre post (upper step (kz ct)) l)) parts /\
+    In ct (su_sel step pre post (upper step (kz ct)) l).
+Proof.
+  intros Hs Hpre Hpost Hk Hct H0. destruct (split_uniform_halo step pre post l Hs Hk) as [parts [E [_ [H1 H2]]]].
+  exists parts. split; [exact E|]. pose proof (upper_covers step (kz ct) Hs) as Hc. split.
+  - apply H1. exists (kz ct / step), ct. fold (upper step (kz ct)). split; [apply Z.div_pos; lia|]. split; [exact Hct|]. split; [lia|reflexivity].
+  - apply H2. split; [exact Hct|lia].
+Qed.
+
+(* ---- Examples: the hypotheses are satisfiable by a non-trivial fiber ---- *)
+Definition ex_leaf z := TLeaf (VInt z).
+Definition ex_fiber : list (value * trie) :=
+  [(VInt 0, ex_leaf 10); (VInt 1, ex_leaf 11); (VInt 3, ex_leaf 13); (VInt 4, ex_leaf 14); (VInt 7, ex_leaf 17); (VInt 12, ex_leaf 22)].
+
+Ltac prove_int_sorted :=
+  split; [repeat constructor; eexists; reflexivity|repeat constructor; cbn; lia].
+
+Example ex_fiber_sorted : int_sorted ex_fiber.
+Proof. prove_int_sorted. Qed.
+Example ex_fiber_nonneg : nonneg_keys ex_fiber.
+Proof. repeat constructor; cbn; lia. Qed.
+
+Example split_uniform_merge1_ex :
+  split_uniform 3 0 0 (TNode ex_fiber) =
+    Some (TNode [(VInt 0, TNode [(VInt 0, ex_leaf 10); (VInt 1, ex_leaf 11)]);
+                 (VInt 3, TNode [(VInt 3, ex_leaf 13); (VInt 4, ex_leaf 14)]);
+                 (VInt 6, TNode [(VInt 7, ex_leaf 17)]);
+                 (VInt 12, TNode [(VInt 12, ex_leaf 22)])]) /\
+  exists t', split_uniform 3 0 0 (TNode ex_fiber) = Some t' /\ merge1 t' = Some (TNode ex_fiber).
+Proof.
+  split; [vm_compute; reflexivity|].
+  apply split_uniform_merge1; [lia|exact ex_fiber_sorted|exact ex_fiber_nonneg].
+Qed.
+
+(* with halos the same element sits in several partitions, and merging then ADDS the copies:
+   split-with-halo followed by merge is NOT the identity on payloads *)
+Example split_uniform_halo_ex :
+  split_uniform 3 1 2 (TNode ex_fiber) =
+    Some (TNode [(VInt 0, TNode [(VInt 0, ex_leaf 10); (VInt 1, ex_leaf 11); (VInt 3, ex_leaf 13); (VInt 4, ex_leaf 14)]);
+                 (VInt 3, TNode [(VInt 3, ex_leaf 13); (VInt 4, ex_leaf 14); (VInt 7, ex_leaf 17)]);
+                 (VInt 6, TNode [(VInt 7, ex_leaf 17)]);
+                 (VInt 9, TNode [(VInt 12, ex_leaf 22)]);
+                 (VInt 12, TNode [(VInt 12, ex_leaf 22)])]) /\
+  (exists parts, split_uniform 3 1 2 (TNode ex_fiber) = Some (TNode parts) /\
+     In (VInt (upper 3 7), TNode (su_sel 3 1 2 (upper 3 7) ex_fiber)) parts /\
+     In (VInt 7, ex_leaf 17) (su_sel 3 1 2 (upper 3 7) ex_fiber)).
+Proof.
+  split; [vm_compute; reflexivity|].
+  apply (split_uniform_halo_home 3 1 2 ex_fiber (VInt 7, ex_leaf 17)); try lia; [apply ex_fiber_sorted|cbn; tauto|cbn; lia].
+Qed.
+
+(* the hypothesis 0 <= c of (a)/(b) is necessary: a negative coordinate is dropped by split_uniform *)
+Example split_uniform_negative_lost :
+  split_uniform 3 0 0 (TNode [(VInt (-2), ex_leaf 10); (VInt 1, ex_leaf 11)]) = Some (TNode [(VInt 0, TNode [(VInt 1, ex_leaf 11)])]).
+Proof. vm_compute. reflexivity. Qed.
